@@ -160,15 +160,20 @@ pub fn dispatch(t: &[&str]) -> Option<Out> {
         "fn_pow" => Out::Ok(h(&fn64::fn_pow(&u(t[1]), &u(t[2])))),
         "fn_inv" => Out::Ok(h(&fn64::fn_inv(&u(t[1])))),
         // ---- curve level: raw Jacobian in, raw Jacobian + affine view out
-        "pt_add" => { let r = pt(t[1]).point_add(&pt(t[2])); Out::Ok(format!("{} {}", hpt(&r), haff(&r))) }
-        "pt_dbl" => { let r = pt(t[1]).point_dbl(); Out::Ok(format!("{} {}", hpt(&r), haff(&r))) }
-        "pt_neg" => { let r = pt(t[1]).neg(); Out::Ok(format!("{} {}", hpt(&r), haff(&r))) }
+        "pt_add" => { let r = pt(t[1]).point_add(&pt(t[2])); Out::Ok(haff(&r)) }
+        "pt_dbl" => { let r = pt(t[1]).point_dbl(); Out::Ok(haff(&r)) }
+        "pt_neg" => { let r = pt(t[1]).neg(); Out::Ok(haff(&r)) }
+        "pt_add_raw" => { let r = pt(t[1]).point_add(&pt(t[2])); Out::Ok(hpt(&r)) }
+        "pt_dbl_raw" => { let r = pt(t[1]).point_dbl(); Out::Ok(hpt(&r)) }
+        "pt_neg_raw" => { let r = pt(t[1]).neg(); Out::Ok(hpt(&r)) }
         "pt_valid" => { let p = pt(t[1]); Out::Ok(format!("{} {}", p.is_valid(), p.is_valid_affine_point())) }
         "pt_affine" => { let r = pt(t[1]).to_affine_point(); Out::Ok(hpt(&r)) }
-        "pt_mul" => { let k = u(t[2]); let r = pt(t[1]).scalar_mul(&k); Out::Ok(format!("{} {}", hpt(&r), haff(&r))) }
-        "g_mul" => { let r = g_mul(&u(t[1])); Out::Ok(format!("{} {}", hpt(&r), haff(&r))) }
+        "pt_mul" => { let k = u(t[2]); let r = pt(t[1]).scalar_mul(&k); Out::Ok(haff(&r)) }
+        "g_mul" => { let r = g_mul(&u(t[1])); Out::Ok(haff(&r)) }
+        "pt_mul_raw" => { let k = u(t[2]); let r = pt(t[1]).scalar_mul(&k); Out::Ok(hpt(&r)) }
+        "g_mul_raw" => { let r = g_mul(&u(t[1])); Out::Ok(hpt(&r)) }
         "pt_bytes" => Out::Ok(hx(&pt(t[1]).to_byte_be(t[2] == "1"))),
-        "pt_from" => res(vh::point_from_byte(&unhex(t[1])), |p| format!("{} {}", hpt(&p), haff(&p))),
+        "pt_from" => res(vh::point_from_byte(&unhex(t[1])), |p| haff(&p)),
         // ---- keys and encodings
         // sk_new <bytes>  -> d and public key (uncompressed)
         "sk_new" => res(Sm2PrivateKey::new(&unhex(t[1])), |sk| format!("{} {}", hx(&sk.to_bytes_be()), hx(&sk.public_key.to_bytes(false)))),
